@@ -39,9 +39,9 @@ type SCase struct {
 	Ops []string `json:"ops"` // local | multi-ok | multi-bad | conn:B1.. | drop:B1.. | alter:B3
 }
 
-var opPool = []string{"local", "multi-ok", "multi-bad", "multi-bad", "conn:B1", "conn:B2", "conn:B3", "drop:B1", "drop:B2", "drop:B3", "alter:B3"}
+var opPool = []string{"local", "multi-ok", "multi-bad", "multi-bad", "multi-bad-s", "conn:B1", "conn:B2", "conn:B3", "drop:B1", "drop:B2", "drop:B3", "alter:B3"}
 
-var probePaths = []string{"/fx/svca", "/fx/svcb", "/fx/svcc", "/fx/svcd", "/fx/svce", "/fx/multiok/m1", "/fx/multiok/m2/x", "/fx/multiok/m3", "/fx/multibad/m1", "/fx/multibad/m2/x", "/un.MultiBad/M1", "/un.SvcA/Ping"}
+var probePaths = []string{"/fx/multibads/m1", "/fx/multibads/m2/x", "/un.MultiBadS/M1", "/fx/svca", "/fx/svcb", "/fx/svcc", "/fx/svcd", "/fx/svce", "/fx/multiok/m1", "/fx/multiok/m2/x", "/fx/multiok/m3", "/fx/multibad/m1", "/fx/multibad/m2/x", "/un.MultiBad/M1", "/un.SvcA/Ping"}
 
 func probeAll(mux http.Handler) []int {
 	out := make([]int, len(probePaths))
@@ -66,6 +66,8 @@ func apply(mux *larking.Mux, op string) (err error, pnc any) {
 		return mux.VerifRegisterService(fixture.MultiDesc("MultiOK", &cnt), nil), nil
 	case "multi-bad":
 		return mux.VerifRegisterService(fixture.MultiDesc("MultiBad", &cnt), nil), nil
+	case "multi-bad-s":
+		return mux.VerifRegisterService(fixture.MultiDesc("MultiBadS", &cnt), nil), nil
 	case "conn":
 		return mux.RegisterConn(ctx, fixture.Backends[target].CC), nil
 	case "drop":
@@ -119,8 +121,8 @@ func CheckSnapshots(c SCase) ([]evid.Violation, sinfo) {
 					return fail(step, "failed-op-observable", "failed-op-observable", "operation failed (%v) but GET %s changed from %d to %d", err, probePaths[i], probesBefore[i], probesAfter[i])
 				}
 			}
-		} else if op == "multi-bad" {
-			return fail(step, "harness", "multi-bad-accepted", "MultiBad registration unexpectedly succeeded")
+		} else if op == "multi-bad" || op == "multi-bad-s" {
+			return fail(step, "harness", "multi-bad-accepted", "%s registration unexpectedly succeeded", op)
 		}
 	}
 	return nil, in
@@ -237,7 +239,7 @@ func CheckStress(p Plan) ([]evid.Violation, int) {
 	stop := make(chan struct{})
 	type target struct{ path, method string }
 	multi := []target{{"/fx/multiok/m1", "/un.MultiOK/M1"}, {"/fx/multiok/m3", "/un.MultiOK/M3"}, {"/fx/multiok/m2/z", "/un.MultiOK/M2"}}
-	badT := []target{{"/fx/multibad/m1", "/un.MultiBad/M1"}, {"/fx/multibad/m2/z", "/un.MultiBad/M2"}}
+	badT := []target{{"/fx/multibad/m1", "/un.MultiBad/M1"}, {"/fx/multibad/m2/z", "/un.MultiBad/M2"}, {"/fx/multibads/m1", "/un.MultiBadS/M1"}, {"/fx/multibads/m2/z", "/un.MultiBadS/M2"}}
 	conn := []target{{"/fx/svcb", "/un.SvcB/Ping"}, {"/fx/svcc", "/un.SvcC/Ping"}, {"/fx/svcd", "/un.SvcD/Ping"}}
 	for r := 0; r < p.Readers; r++ {
 		wg.Add(1)
@@ -312,7 +314,7 @@ func CheckStress(p Plan) ([]evid.Violation, int) {
 			if pnc != nil {
 				report("writer op %s panicked: %v", op, pnc)
 			}
-			if err != nil && op != "multi-bad" {
+			if err != nil && op != "multi-bad" && op != "multi-bad-s" {
 				report("writer op %s failed: %v", op, err)
 			}
 		}
@@ -403,7 +405,7 @@ func TestPropStress(t *testing.T) {
 		n := rapid.IntRange(1, 5).Draw(t, "nops")
 		usedOK := false
 		for i := 0; i < n; i++ {
-			op := rapid.SampledFrom([]string{"multi-bad", "multi-ok", "multi-bad", "local"}).Draw(t, "wop")
+			op := rapid.SampledFrom([]string{"multi-bad", "multi-ok", "multi-bad-s", "local"}).Draw(t, "wop")
 			if op == "multi-ok" {
 				if usedOK {
 					op = "multi-bad"
